@@ -271,7 +271,18 @@ func genFont(rng *rand.Rand, o *fontOpts) *type1.Font {
 	fi.IsFixedPitch = rng.IntN(2) == 0
 	fi.UnderlinePosition = funit.Float64(genNumber(rng))
 	fi.UnderlineThickness = funit.Float64(genNumber(rng))
-	switch rng.IntN(5) {
+	switch rng.IntN(8) {
+	case 5:
+		// quarter turns and axis swaps: both diagonal entries are exactly zero
+		a := []float64{0.001, -0.001, 0.0005, 1}[rng.IntN(4)]
+		fi.FontMatrix = matrix.Matrix{0, a, -a, 0, 0, 0}
+		if rng.IntN(2) == 0 {
+			fi.FontMatrix = matrix.Matrix{0, a, a, 0, genNumber(rng), genNumber(rng)}
+		}
+		o.f("font matrix with a zero diagonal")
+	case 6, 7:
+		fi.FontMatrix = matrix.Matrix{genNumber(rng) / 1000, genNumber(rng) / 1000, genNumber(rng) / 1000, genNumber(rng) / 1000, genNumber(rng), genNumber(rng)}
+		o.f("general font matrix")
 	case 0:
 		fi.FontMatrix = matrix.Matrix{0.001, 0, 0, 0.001, 0, 0}
 	case 1:
